@@ -33,20 +33,20 @@ GENERIC_ASSUME = [
 ]
 
 PROPS = {
- 'C01': dict(level='proof', state=True, exhaustive=4, monitors={'C01'}, runs=std_runs([('all', False), ('fin', False), ('weak', False), ('faults', False)]),
+ 'C01': dict(level='proof', state=True, exhaustive=4, monitors={'REACH', 'C01'}, runs=std_runs([('all', False), ('fin', False), ('weak', False), ('faults', False)]),
              explanation='Safety core: the trace pass theorem (Pass.v) + machine correspondence with full state comparison (rc, tc, mark, flags, buffer order after every command) + canary/quarantine monitor on the real crate.',
              assumptions=GENERIC_ASSUME),
- 'C02': dict(level='proof', state=True, exhaustive=3, monitors={'C01', 'C11'}, runs=std_runs([('core', False), ('fin', False), ('all', False)]),
+ 'C02': dict(level='proof', state=True, exhaustive=3, monitors={'REACH', 'C01', 'C11'}, runs=std_runs([('core', False), ('fin', False), ('all', False)]),
              explanation='Completeness of the pass over the model + correspondence (events and state).', assumptions=GENERIC_ASSUME),
  'C03': dict(level='proof', state=False, monitors={'C03'}, runs=std_runs([('all', False), ('unwrap', False), ('faults', False)]),
              explanation='Lifecycle invariant over the model + allocator pairing/layout monitor on the real crate + layout grid.', assumptions=GENERIC_ASSUME),
  'C04': dict(level='proof', state=False, exhaustive=3, monitors={'C03'}, runs=std_runs([('core', False), ('all', False), ('fin', False)]),
              explanation='Count invariant over the model; strong_count and last-owner reclamation compared on every program.', assumptions=GENERIC_ASSUME),
- 'C05': dict(level='proof', state=True, monitors={'C05'}, runs=std_runs([('fin', False), ('all', False), ('faults', False)], extra_feats=('nofin', 'noweak')),
+ 'C05': dict(level='proof', state=True, monitors={'REACH', 'C05'}, runs=std_runs([('fin', False), ('all', False), ('faults', False)], extra_feats=('nofin', 'noweak')),
              explanation='Finalizer discipline over the model + per-object finalizer monitor on the real crate.', assumptions=GENERIC_ASSUME),
- 'C06': dict(level='proof', state=False, monitors={'C01', 'C05'}, runs=std_runs([('fin', False), ('weak', False)], extra_feats=('noweak',)),
+ 'C06': dict(level='proof', state=False, monitors={'REACH', 'C01', 'C05'}, runs=std_runs([('fin', False), ('weak', False)], extra_feats=('noweak',)),
              explanation='Resurrection: safety is C01 over programs with resurrecting finalizers; bounded passes by construction.', assumptions=GENERIC_ASSUME),
- 'C07': dict(level='proof', state=True, monitors={'C07', 'C01', 'C03', 'C05', 'C12'}, runs=std_runs([('faults', False), ('faults', True)]),
+ 'C07': dict(level='proof', state=True, monitors={'REACH', 'C07', 'C01', 'C03', 'C05', 'C12'}, runs=std_runs([('faults', False), ('faults', True)]),
              explanation='Flags-idle invariant over the model + fault-injected correspondence (every callback kind, fuse values 1..6).', assumptions=GENERIC_ASSUME),
  'C08': dict(level='proof', state=False, monitors={'C01'}, runs=std_runs([('weak', False), ('unwrap', False), ('cyclic', False)], extra_feats=('nofin',)),
              explanation='Upgrade characterisation over the model + correspondence of every upgrade result.', assumptions=GENERIC_ASSUME),
@@ -74,6 +74,14 @@ PROPS = {
              explanation='Product-of-machines theorem (Threads.v) + multi-thread correspondence and teardown probes. Partial: thread-locality of the statics and !Send/!Sync are exhibited by probes only.', assumptions=['Threads.v abstracts the per-thread machine; thread-local storage itself is not modelled']),
  'C20': dict(level='proof', state=False, monitors=set(), runs=R([], []),
              explanation='Forwarding impls proved on generated code; layout theorem (Layout.v) + address grid probes.', assumptions=['Layout.v models repr(C); tie = layout grid']),
+}
+
+ORACLE = {
+    'C01': r'^(obs |BAD |free |cb drop )', 'C02': r'^(sobs |free |cb drop )', 'C03': r'^(free |sfree |alloc |cb drop )',
+    'C04': r'^(obs |free |cb (fin|drop) )', 'C05': r'^(cb fin |obs )', 'C06': r'^(obs |cb (fin|drop) |free )',
+    'C07': r'^(res panicked|state |sobs )', 'C08': r'^(res (some|none)|obs )', 'C09': r'^(wobs |obs |sfree |salloc )',
+    'C10': r'^(cb action )', 'C11': r'^(sobs |buf )', 'C12': r'^(cb |sobs |res (unwrap|panicked))', 'C13': r'^(res unwrap|free |sobs |res (some|none)|wobs )',
+    'C14': r'^(wobs |res (some|none)|free |sfree |cb drop |obs )', 'C15': r'^(state |sobs |cb trace )', 'C16': r'^(res panicked|obs |wobs )',
 }
 
 COMPONENTS = {
